@@ -57,6 +57,7 @@ structure Obs where
   juncs : List JuncObs := []
   routes : List (Nat × List P2) := []
   disps : List (Nat × List P2) := []
+  ends : List (Nat × EndK × EndK) := []      -- ConnRef::endpointConnEnds() as reported by the library
   deriving Inhabited
 
 structure St where
@@ -70,6 +71,7 @@ structure St where
   divs : List String := []        -- DIVERGE messages
   stats : List (String × Nat) := []
   nontrivial : Bool := false
+  retargets : List (Nat × Bool × EndK) := []  -- (connector, isDst, previous attachment) of this step
   jmoves : List (Nat × P2) := []  -- junction moves requested since the last step (id, delta)
   hyperOn : Bool := true          -- cfg: routing option improveHyperedgeRoutesMovingJunctions
   strict : List String := []      -- driver args: finding classes to report as SPECFAIL (else counted)
@@ -343,6 +345,17 @@ def checkOthers (s : St) : St := Id.run do
                 s := { s with fails := s!"step {s.stepNo}: connector {c.id} {if isDst then "dst" else "src"} attached to junction {j} (fixed={jo.fixed}) ends at {showP p} in {which}, junction position() is {showP jo.pos}, recommendedPosition() {showP jo.recPos}" :: s.fails }
             | _, _ => s := { s with fails := s!"step {s.stepNo}: connector {c.id}: no {which} / junction position" :: s.fails }
           | _ => pure ()
+        -- free-point ends: the route ends exactly at the point the user gave
+        for (e, isDst) in [(c.src, false), (c.dst, true)] do
+          match e, (if isDst then rt.getLast? else rt.head?) with
+          | .free q, some p =>
+            s := bump s "end.free"
+            if q != p then
+              let msg := s!"step {s.stepNo}: connector {c.id} {if isDst then "dst" else "src"} is the free point {showP q} but {which} ends at {showP p}"
+              if which == "displayRoute()" && hasJunctionEnd c && s.hyperOn && (if isDst then r.getLast? else r.head?) == some q then
+                s := gated s "hyper-disp" msg
+              else s := { s with fails := msg :: s.fails }
+          | _, _ => pure ()
         -- checkpoints
         if !c.cps.isEmpty then
           s := bump s "checkpoints.checked" c.cps.length
@@ -358,6 +371,44 @@ def checkOthers (s : St) : St := Id.run do
     | _, _ => pure ()
   return s
 
+def showEnd : EndK → String
+  | .pin sh cls => s!"(shape {sh}, class {cls})"
+  | .junc j => s!"junction {j}"
+  | .free p => s!"point {showP p}"
+
+def sameEnd : EndK → EndK → Bool
+  | .pin a b, .pin c d => a == c && b == d
+  | .junc a, .junc b => a == b
+  | .free p, .free q => p == q
+  | _, _ => false
+
+/-- `ConnRef::endpointConnEnds()` must name the attachment the user asked for last (the ends given
+    at construction or by the latest setSourceEndpoint / setDestEndpoint), also when the object the
+    end was attached to before moved in the same transaction. Class retarget-jmove: the end was
+    detached from a JUNCTION that is moved in the same transaction (JunctionRef::moveAttachedConns
+    re-queues the old ConnEnd without the connPinMoveUpdate flag, so the user's change is lost). -/
+def checkEndsNamed (s : St) : St := Id.run do
+  let mut s := s
+  for (id, o1, o2) in s.cur.ends do
+    match s.conns.find? (·.id == id) with
+    | none => pure ()
+    | some c =>
+      for (decl, obs, isDst) in [(c.src, o1, false), (c.dst, o2, true)] do
+        let deadShape := match decl with | .pin sh _ => (lookup s.cur.boxes sh).isNone | _ => false
+        if deadShape then continue
+        s := bump s "ends.named"
+        if !sameEnd decl obs then
+          let msg := s!"step {s.stepNo}: connector {id} {if isDst then "dst" else "src"}: endpointConnEnds() names {showEnd obs}, the user attached it to {showEnd decl}"
+          let fromMovedJunction := s.retargets.any (fun (rid, rdst, old) => rid == id && rdst == isDst &&
+            (match old with | .junc j => s.jmoves.any (·.1 == j) | _ => false))
+          if fromMovedJunction then
+            s := gated s "retarget-jmove" msg
+            -- continue with the library's view of this end so that later steps stay consistent
+            s := { s with conns := s.conns.map (fun c => if c.id == id then (if isDst then { c with dst := obs } else { c with src := obs }) else c) }
+          else s := { s with fails := msg :: s.fails }
+  if !s.retargets.isEmpty then s := bump s "op.retarget.steps"
+  return { s with retargets := [] }
+
 /-- tie (not a property clause): after `moveJunction(j, dx, dy)` + processTransaction,
     `JunctionRef::position()` is the old position plus the requested shift -/
 def checkJunctionMoves (s : St) : St := Id.run do
@@ -372,6 +423,7 @@ def checkJunctionMoves (s : St) : St := Id.run do
   return { s with jmoves := [] }
 
 def endStep (s : St) : St :=
+  let s := checkEndsNamed s
   let s := checkJunctionMoves s
   let s := checkPins s
   let s := checkEnds s
@@ -397,6 +449,15 @@ def feed (s : St) (l : Array String) : St :=
     match l[1]! with
     | "move" | "resize" => { s with moved := true }
     | "jmove" => { s with jmoves := s.jmoves ++ [(nat! l[2]!, pt! l 3)] }
+    | "retarget" =>
+      let id := nat! l[2]!
+      let isDst := l[3]! == "1"
+      let (e, _) := parseEnd l 4
+      match s.conns.find? (·.id == id) with
+      | some c =>
+        { s with retargets := s.retargets ++ [(id, isDst, if isDst then c.dst else c.src)],
+                 conns := s.conns.map (fun c => if c.id == id then (if isDst then { c with dst := e } else { c with src := e }) else c) }
+      | none => s
     | "setexcl" =>
       let id := nat! l[2]!
       { s with pins := s.pins.map (fun p => if p.id == id then { p with exclSet := int! l[3]! } else p) }
@@ -405,6 +466,10 @@ def feed (s : St) (l : Array String) : St :=
   | "box" => { s with cur := { s.cur with boxes := s.cur.boxes ++ [(nat! l[1]!, ⟨rat! l[2]!, rat! l[3]!, rat! l[4]!, rat! l[5]!⟩)] } }
   | "pinpos" => { s with cur := { s.cur with pins := s.cur.pins ++ [⟨nat! l[1]!, pt! l 2, nat! l[4]!, l[5]! == "1"⟩] } }
   | "jpos" => { s with cur := { s.cur with juncs := s.cur.juncs ++ [⟨nat! l[1]!, pt! l 2, pt! l 4, l[6]! == "1"⟩] } }
+  | "ends" =>
+    let (e1, i) := parseEnd l 2
+    let (e2, _) := parseEnd l i
+    { s with cur := { s.cur with ends := s.cur.ends ++ [(nat! l[1]!, e1, e2)] } }
   | "route" => { s with cur := { s.cur with routes := s.cur.routes ++ [(nat! l[1]!, ptsFrom l 3 (nat! l[2]!))] } }
   | "disp" => { s with cur := { s.cur with disps := s.cur.disps ++ [(nat! l[1]!, ptsFrom l 3 (nat! l[2]!))] } }
   | "endstep" => endStep s
